@@ -2,5 +2,5 @@ SPECIFICATION Spec
 CONSTANTS
   ModelFile = "MODELFILE"
   NProcs = 2
-INVARIANTS NoRace StaticObligation Emit
+INVARIANTS Emit NoRace StaticObligation
 CHECK_DEADLOCK FALSE
